@@ -13,7 +13,7 @@ Direct effects are recorded with file:line and a description of the written targ
 """
 import ast
 
-from .frontend import dotted
+from .frontend import dotted, AnalysisError
 
 CTOR_NAMES = {"__init__", "__new__", "__array_finalize__", "__post_init__"}
 
@@ -346,6 +346,25 @@ class FuncEffects(ast.NodeVisitor):
             self.env[st.name] = AV(fn=st)
         elif isinstance(st, ast.ClassDef):
             self.env[st.name] = FRESH
+        elif isinstance(st, ast.Match):
+            subj = self.ev(st.subject)
+            e0 = dict(self.env)
+            joined = None
+            for case in st.cases:
+                self.env = dict(e0)
+                for n in ast.walk(case.pattern):        # names a pattern binds refer to (parts of) the subject
+                    nm = getattr(n, "name", None)
+                    if isinstance(nm, str):
+                        self.env[nm] = subj
+                if case.guard is not None:
+                    self.ev(case.guard)
+                self.block(case.body)
+                joined = self.env if joined is None else _join_env(joined, self.env)
+            self.env = _join_env(joined, e0) if joined is not None else e0
+        elif isinstance(st, (ast.Pass, ast.Break, ast.Continue, ast.Import, ast.ImportFrom)):
+            pass
+        else:
+            raise AnalysisError(f"E1: statement kind {type(st).__name__} at {self.fi.file}:{getattr(st, 'lineno', '?')} is not modelled")
 
     def assign(self, tg, v, st):
         if isinstance(tg, ast.Name):
